@@ -354,3 +354,308 @@ func R48() Rule {
 		}
 	}}
 }
+
+// ---------------------------------------------------------------------------
+// R49: sibling implementations use the same parameters
+// ---------------------------------------------------------------------------
+
+// R49: the two stores implement one interface and must answer alike.  A named
+// parameter that one implementation uses and the other silently ignores (e.g. the
+// base URL that the object's links are built from, replaced by a constant) is a
+// disagreement a client can observe.  Parameters an implementation deliberately
+// ignores are written `_` in this code base and are exempt.
+// r49Exceptions: reasoned exceptions, one named parameter each.
+var r49Exceptions = map[string]string{
+	"memstore.Get/baseUrl": "Get's callers (media download, compose source read) consult content type, generation, metageneration, disposition, encoding and the content — never the self/media links the base URL is for; the memory store returns the stored record without baking links",
+}
+
+func R49() Rule {
+	return Rule{Name: "R49", Run: func(c *core.Ctx) {
+		P := c.P
+		pkg := P.Pkgs[core.PkgGcsemu]
+		iface, _ := pkg.Types.Scope().Lookup("Store").Type().Underlying().(*types.Interface)
+		if iface == nil {
+			panic(core.Broken("anchor gone: interface gcsemu.Store"))
+		}
+		used := func(fn *ssa.Function, i int) (bool, bool) { // (used, named)
+			pa := fn.Params[i]
+			if pa.Name() == "_" || pa.Name() == "" {
+				return false, false
+			}
+			for _, r := range core.Referrers(pa) {
+				if _, isDbg := r.(*ssa.DebugRef); !isDbg {
+					return true, true
+				}
+			}
+			return false, true
+		}
+		n := 0
+		for i := 0; i < iface.NumMethods(); i++ {
+			m := iface.Method(i).Name()
+			ms := P.Func(core.PkgGcsemu, "(*memstore)."+m)
+			fs := P.Func(core.PkgGcsemu, "(*filestore)."+m)
+			if ms == nil || fs == nil || ms.Blocks == nil || fs.Blocks == nil || len(ms.Params) != len(fs.Params) {
+				continue
+			}
+			for k := 1; k < len(ms.Params); k++ {
+				n++
+				um, nm := used(ms, k)
+				uf, nf := used(fs, k)
+				construct := fmt.Sprintf("Store.%s/param%d", m, k)
+				if why, ok := r49Exceptions["memstore."+m+"/"+ms.Params[k].Name()]; ok && !um {
+					c.Ok("R49", construct, ms.Pos(), true, "reasoned exception: %s", why)
+					continue
+				}
+				switch {
+				case uf && nm && !um:
+					c.Bad("R49", construct, ms.Pos(), "memstore.%s ignores its parameter %q, which filestore.%s uses: the stores answer differently", m, ms.Params[k].Name(), m)
+				case um && nf && !uf:
+					c.Bad("R49", construct, fs.Pos(), "filestore.%s ignores its parameter %q, which memstore.%s uses: the stores answer differently", m, fs.Params[k].Name(), m)
+				default:
+					c.Ok("R49", construct, ms.Pos(), false, "used alike (or explicitly ignored)")
+				}
+			}
+		}
+		if n < 10 {
+			c.Unknown("R49", "floor/params", token.NoPos, "only %d Store parameters compared", n)
+		}
+	}}
+}
+
+// ---------------------------------------------------------------------------
+// R50: copyRow does not share cell slices with the row it copies
+// ---------------------------------------------------------------------------
+
+// R50: predicates, interleave branches and condition filters are evaluated on
+// copyRow(r) precisely so that their in-place editing (reslicing and compacting a
+// column's cells) cannot reach r.  That holds only if the copy owns its own
+// family, column and *cell-slice* objects (the cells themselves are immutable, R36).
+// A copy whose Column.Cells is the source's slice shares the backing array: an
+// in-place filter on the copy rewrites the cells of the authoritative row.
+func R50() Rule {
+	return Rule{Name: "R50", Run: func(c *core.Ctx) {
+		P := c.P
+		fn := P.MustFunc(core.PkgBttest, "copyRow")
+		c.Fn("copyRow")
+		n := 0
+		for _, f := range P.Scope(fn, func(f *ssa.Function) bool { return core.PkgPathOf(f) != core.PkgBttest }) {
+			for _, b := range f.Blocks {
+				for _, in := range b.Instrs {
+					st, ok := in.(*ssa.Store)
+					if !ok {
+						continue
+					}
+					fa, ok := st.Addr.(*ssa.FieldAddr)
+					if !ok || !isCellsField(fa) {
+						continue
+					}
+					n++
+					fresh := false
+					why := "the copy's Cells is " + describeValue(core.Resolve(st.Val))
+					switch x := core.Resolve(st.Val).(type) {
+					case *ssa.Call:
+						if bi, isB := x.Call.Value.(*ssa.Builtin); isB && bi.Name() == "append" {
+							// append(<fresh or nil>, src...) allocates a new backing array
+							switch base := core.Resolve(x.Call.Args[0]).(type) {
+							case *ssa.Slice:
+								if _, isAlloc := core.Resolve(base.X).(*ssa.Alloc); isAlloc {
+									fresh = true
+								}
+							case *ssa.Const:
+								fresh = base.Value == nil
+							case *ssa.MakeSlice:
+								fresh = true
+							}
+							if !fresh {
+								why = "the copy's Cells is appended to a slice that is not fresh"
+							}
+						}
+					case *ssa.MakeSlice:
+						fresh = true // filled by copy()
+					case *ssa.Const:
+						fresh = x.Value == nil
+					case *ssa.UnOp:
+						if fa2, ok := x.X.(*ssa.FieldAddr); ok && isCellsField(fa2) {
+							why = "the copy's Cells is the source column's slice itself"
+						}
+					}
+					c.Check(fresh, "R50", fmt.Sprintf("copyRow/cells-slice-is-fresh#%d", n), st.Pos(), "the copy gets its own cell slice (append to a fresh slice / make+copy)", why+": in-place filtering of the copy (predicate, interleave branch, condition) rewrites the cells of the row it was copied from")
+				}
+			}
+		}
+		if n < 1 {
+			c.Unknown("R50", "copyRow/floor", fn.Pos(), "copyRow assigns no Column.Cells")
+		}
+	}}
+}
+
+// ---------------------------------------------------------------------------
+// R51: an identifier taken from an atomic counter is the increment's own result
+// ---------------------------------------------------------------------------
+
+// R51: atomic.AddIntN returns the value this caller produced; reading the counter
+// again with a separate load returns whatever the latest increment by anyone was.
+// Two concurrent requests then obtain the same identifier (the second resumable
+// upload session silently replaces the first).  Reported: an atomic.Add whose
+// result is discarded while the same counter is read in the same function.
+func R51() Rule {
+	return Rule{Name: "R51", Run: func(c *core.Ctx) {
+		P := c.P
+		n := 0
+		for _, pkg := range []string{core.PkgBttest, core.PkgGcsemu, core.PkgGcsutil} {
+			if P.SPkgs[pkg] == nil {
+				continue
+			}
+			for _, fn := range P.SrcFuncs(pkg) {
+				k := 0
+				for _, ci := range core.AllCalls(fn) {
+					if ci.Static == nil || ci.Static.Pkg == nil || ci.Static.Pkg.Pkg.Path() != "sync/atomic" || (ci.Static.Name() != "AddInt32" && ci.Static.Name() != "AddInt64" && ci.Static.Name() != "AddUint32" && ci.Static.Name() != "AddUint64") {
+						continue
+					}
+					n++
+					k++
+					c.Fn(core.FuncName(fn))
+					construct := fmt.Sprintf("%s/atomic-add#%d", core.FuncName(fn), k)
+					call, _ := ci.Instr.(*ssa.Call)
+					resultUsed := false
+					if call != nil {
+						for _, r := range core.Referrers(call) {
+							if _, isDbg := r.(*ssa.DebugRef); !isDbg {
+								resultUsed = true
+							}
+						}
+					}
+					reread := false
+					for _, c2 := range core.AllCalls(fn) {
+						if c2.Static != nil && c2.Static.Pkg != nil && c2.Static.Pkg.Pkg.Path() == "sync/atomic" && len(c2.Static.Name()) > 4 && c2.Static.Name()[:4] == "Load" {
+							if core.SameValue(c2.Common.Args[0], ci.Common.Args[0]) || fieldLoadKeyOfAddr(c2.Common.Args[0]) == fieldLoadKeyOfAddr(ci.Common.Args[0]) {
+								reread = true
+							}
+						}
+					}
+					if !resultUsed && reread {
+						c.Bad("R51", construct, ci.Instr.Pos(), "the counter is incremented atomically but the value used afterwards comes from a separate load: two concurrent callers can read the same value (duplicate upload ids: one session replaces the other)")
+					} else {
+						c.Ok("R51", construct, ci.Instr.Pos(), true, "the increment's own result is used")
+					}
+				}
+			}
+		}
+		if n < 1 {
+			c.Ok("R51", "no-atomic-counters", token.NoPos, false, "no atomic.Add call in the analysed packages")
+		}
+	}}
+}
+
+// fieldLoadKeyOfAddr: a key for &x.f addresses (struct type + field index + base value).
+func fieldLoadKeyOfAddr(v ssa.Value) string {
+	if fa, ok := v.(*ssa.FieldAddr); ok {
+		return fmt.Sprintf("%p.%d", core.Resolve(fa.X), fa.Field)
+	}
+	return fmt.Sprintf("%p", v)
+}
+
+// ---------------------------------------------------------------------------
+// R52: early exits from scans over a column's cells agree with the descending order;
+//      nothing but scrubFam relies on the order of a family's columns
+// ---------------------------------------------------------------------------
+
+// inLoop: b lies on a cycle of the CFG.
+func inLoop(b *ssa.BasicBlock) bool { return core.ReachableFrom(b, false)[b] }
+
+// R52 (a): cells are kept in descending timestamp order.  A linear scan may stop
+// early only on a predicate that, once true, stays true for the rest of the slice:
+// `cell.ts < X`.  Stopping on `cell.ts > X` (true at the front, false later) skips
+// the very cells that can still match — an overwrite of an older version then
+// appends a duplicate.  (b): a family's columns are sorted only when a row is
+// stored (scrubFam); while a request is being applied new columns are appended at
+// the end.  A lookup that relies on qualifier order (binary search, early exit on
+// bytes.Compare) misses columns created earlier in the same request.
+func R52() Rule {
+	return Rule{Name: "R52", Run: func(c *core.Ctx) {
+		P := c.P
+		nA, nB := 0, 0
+		scrub := P.Func(core.PkgBttest, "scrubFam")
+		for _, fn := range P.SrcFuncs(core.PkgBttest) {
+			ka, kb := 0, 0
+			for _, b := range fn.Blocks {
+				ifi, ok := b.Instrs[len(b.Instrs)-1].(*ssa.If)
+				if !ok || !inLoop(b) {
+					continue
+				}
+				bin, ok := core.Resolve(ifi.Cond).(*ssa.BinOp)
+				if !ok {
+					continue
+				}
+				op := bin.Op
+				l, r := bin.X, bin.Y
+				if !isCellTs(l) && isCellTs(r) {
+					l, r = r, l
+					op = flipOp(op)
+				}
+				if !isCellTs(l) || (op != token.LSS && op != token.GTR && op != token.LEQ && op != token.GEQ) {
+					continue
+				}
+				// the cell on the left is the loop's current element (indexed / ranged), the right side is loop-invariant
+				if !elementOfList(cellOf(l)) {
+					continue
+				}
+				leaves := func(s *ssa.BasicBlock) bool { return !core.ReachableFrom(s, true)[b] }
+				exitOnTrue, exitOnFalse := leaves(b.Succs[0]), leaves(b.Succs[1])
+				if !exitOnTrue && !exitOnFalse {
+					continue
+				}
+				nA++
+				ka++
+				c.Fn(core.FuncName(fn))
+				construct := fmt.Sprintf("a/%s/early-exit#%d", core.FuncName(fn), ka)
+				bad := (exitOnTrue && (op == token.GTR || op == token.GEQ)) || (exitOnFalse && !exitOnTrue && (op == token.LSS || op == token.LEQ))
+				if bad {
+					c.Bad("R52", construct, bin.Pos(), "the scan over a column's cells stops as soon as a cell is *newer* than the reference timestamp, but cells are sorted newest first: all the cells that can still match come later and are skipped (an overwrite of an older version appends a duplicate cell)")
+				} else {
+					c.Ok("R52", construct, bin.Pos(), true, "early exit on a predicate that stays true for the rest of a descending slice")
+				}
+			}
+			// (b) ordering comparisons on qualifiers outside scrubFam
+			if scrub != nil && core.Root(fn) == scrub {
+				continue
+			}
+			for _, ci := range core.AllCalls(fn) {
+				if !ci.IsFunc("bytes", "Compare") {
+					continue
+				}
+				isQual := func(v ssa.Value) bool {
+					ch := ownerFieldChain(v)
+					return len(ch) > 0 && ch[len(ch)-1] == "Column.Qualifier"
+				}
+				if !isQual(ci.Common.Args[0]) && !isQual(ci.Common.Args[1]) {
+					continue
+				}
+				// comparing stored qualifiers against a *filter's* range bounds is value logic, not a lookup
+				if fn.Name() == "includeCell" || core.FuncName(core.Root(fn)) == "includeCell" {
+					continue
+				}
+				nB++
+				kb++
+				c.Fn(core.FuncName(fn))
+				c.Bad("R52", fmt.Sprintf("b/%s/qualifier-order#%d", core.FuncName(fn), kb), ci.Instr.Pos(), "%s orders column qualifiers (bytes.Compare): outside scrubFam a family's columns are not sorted — columns created earlier in the same request sit at the end — so a lookup that stops early or bisects misses them (a second write to the column creates a duplicate)", core.FuncName(fn))
+			}
+		}
+		if nB == 0 {
+			c.Ok("R52", "b/qualifier-order-only-in-scrubFam", token.NoPos, true, "no ordering comparison of column qualifiers outside scrubFam")
+		}
+		if nA == 0 {
+			c.Ok("R52", "a/no-early-exit-on-cell-order", token.NoPos, true, "no linear cell scan stops early on an ordering comparison")
+		}
+	}}
+}
+
+// cellOf: the *Cell a TimestampMicros load reads from.
+func cellOf(v ssa.Value) ssa.Value {
+	if ld, ok := core.Resolve(v).(*ssa.UnOp); ok {
+		if fa, ok := ld.X.(*ssa.FieldAddr); ok {
+			return fa.X
+		}
+	}
+	return nil
+}
